@@ -128,9 +128,3 @@ func TestVerifC47(t *testing.T) {
 	})
 }
 
-func clipStr(s string, n int) string {
-	if len(s) > n {
-		return s[:n] + fmt.Sprintf("…(%d bytes)", len(s))
-	}
-	return s
-}
